@@ -71,7 +71,10 @@ def live_selfies(rng, maxlen=60, rich=0.15, bad=0.0, dots=0.05, nops=0.03, legac
             if rng.random() < 0.1:
                 idx = idx[:rng.randint(0, L)]
             if rng.random() < 0.07:
-                idx = [rng.choice(ATOMS_TERM + SPECIAL + ATOMS_RICH) for _ in idx]
+                # index symbols replaced by other symbols (they are then read for their index value); with a restricted
+                # alphabet the replacements come from that alphabet only, so that the string stays inside it
+                pool = (atoms_term + atoms_rich) if alphabet is not None else (ATOMS_TERM + SPECIAL + ATOMS_RICH)
+                idx = [rng.choice(pool) for _ in idx]
             out.append(sym); out += idx
         elif r < 0.86:
             sym = rng.choice(RING if rng.random() < 0.8 else STEREO_RING)
@@ -98,7 +101,7 @@ def live_selfies(rng, maxlen=60, rich=0.15, bad=0.0, dots=0.05, nops=0.03, legac
         elif r < 0.90 + dots + nops:
             out.append('[nop]')
         elif r < 0.90 + dots + nops + 0.01:
-            out.append('[epsilon]')
+            out.append('[epsilon]' if alphabet is None else rng.choice(atoms_main))
         elif legacy and rng.random() < legacy * 5:
             out.append(rng.choice(LEGACY))
         elif bad and rng.random() < bad * 10:
